@@ -314,7 +314,7 @@ PROPS = {
     ),
     "C18": dict(
         mc=[dict(module="MC_C18")], judge="Judge_C18", want=["js"],
-        rule="prop map {a?: string, b?: number, cb?: () => void, 'q-k'?: string, z?: boolean} x default object literals: per key "
+        rule="prop map {a?: string, b?: number, cb?: () => void, 'q-k'?: string, z?: boolean, u?: fn|string, 'w'?: number, ['v']?: string} x default object literals: per key "
              "none / literal / expression / shorthand / getter / method / async method / function value / quoted and "
              "computed-literal key spellings, with and without an extra key (full product), plus the dynamic forms identifier, "
              "call, spread and computed key; the runtime observer resolves every default with Vue's rule (function defaults are "
